@@ -1,5 +1,5 @@
 (* C20 — Diagnostics point at the right place and always terminate.  Statements only. *)
-From SV Require Import Base Regex Diag DiagFacts.
+From SV Require Import Base Regex Diag DiagFacts LineFacts.
 
 (* the debug pretty-printer terminates on EVERY string (hence on every repr of a compiled selector):
    each of its REGENERATED token patterns consumes at least one character and the loop has a fallback *)
@@ -7,14 +7,20 @@ Theorem C20_pretty_terminates : forall sel, exists out, pretty sel = Some out.
 Proof. exact pretty_total. Qed.
 Print Assumptions C20_pretty_terminates.
 
-(* FULL STATEMENT for the context function: forall s i, i <= |s| -> line and column of get_pattern_context s i
-   = line_col s i (1 + number of \n, \r\n, \r breaks before the offset; offset within that line + 1).
-   Proved (kernel computation) for every string over {a, LF, CR} of length <= 7 and every offset 0..|s|
-   (3280 strings, incl. every mix of the three line-break styles and offsets at the very end);
-   longer patterns are decided by the differential run.  Labelled partial. *)
-Theorem C20_context_line_col_partial : gpc_check 7 = true.
-Proof. exact gpc_line_col_bounded. Qed.
-Print Assumptions C20_context_line_col_partial.
+(* The context function: for EVERY string s and EVERY offset i <= |s| the line and column reported by
+   get_pattern_context s i are those of the specification line_col (line = 1 + number of line breaks wholly before the
+   offset, column = offset - start of that line + 1; CR LF, a lone CR and a lone LF are line breaks; an offset between
+   CR and LF still belongs to the line they end).  The proof characterises what finditer yields for the REGENERATED
+   pattern util.RE_PATTERN_LINE_SPLIT (one match per line break, then the empty match at the very end) and then follows
+   the loop.  No bound on the length of s. *)
+Theorem C20_context_line_col : forall s i, (i <= length s)%nat ->
+  let '(_, line, col) := get_pattern_context s (Z.of_nat i) in (line, col) = line_col s i.
+Proof. exact gpc_line_col. Qed.
+Print Assumptions C20_context_line_col.
+
+Theorem C20_line_split_matches : forall s, finditer RegexGen.util_RE_PATTERN_LINE_SPLIT s = map tag (brks s 0).
+Proof. exact finditer_line_split. Qed.
+Print Assumptions C20_line_split_matches.
 
 Example C20_nonvacuous :
   line_col [97; 44; 10; 98; 44; 10; 58; 105; 115; 40]%N 10 = (3, 5)%Z /\
